@@ -133,6 +133,21 @@ let () =
                | _ -> [] in
              print_grid { g1 with gr_data = d }
            end
+         | "TI" ->
+           (* TI same nd lower.. width.. nx.. nsteps {kind rel cont x.. f..}.. ; kind R = fresh instance (ti_bin reset, grids kept) *)
+           let same = ni () <> 0 in let nd = ni () in
+           let lower = nflist nd in let width = nflist nd in let nx = nzlist nd in
+           let c = { h_lower = lower; h_width = width; h_nx = nx; h_step_zero_data = false } in
+           let nsteps = ni () in
+           let st = ref (ti_init fops c) in
+           for _ = 1 to nsteps do
+             let kind = next () in
+             let rel = ni () in let cont = ni () <> 0 in
+             let x = nflist nd in let f = nflist nd in
+             if kind = "R" then st := { !st with ts_bin = (ti_init fops c).ts_bin };
+             st := ti_step fops same c !st { ti_rel = z_of_int rel; ti_cont = cont; ti_x = x; ti_f = f }
+           done;
+           Printf.printf "%s @@ %s\n" (String.concat " " (List.map hex !st.ts_count)) (String.concat " " (List.map hex !st.ts_force))
          | "BDIST" ->
            (* BDIST nd per.. lower.. upper.. width.. x.. *)
            let nd = ni () in let per = List.init nd (fun _ -> ni () <> 0) in
